@@ -197,8 +197,8 @@ def gen_signals(rng, n_in=None, n_out=None, n_bidir=None, wide=False, odd_names=
         names_out = ["n", "i1", "v1", "Q", "w1"]
         rng.shuffle(names_out)
     if odd_names and rng.random() < 0.5:
-        names_in = ["A-1", "~B", "CLK", "é", "IN[0]"]
-        names_out = ["Q", "R'", "S", "T.x", "汉"]
+        names_in = ["A-1", "~B", "ÄÖÜßäöü", "é", "IN[0]"]
+        names_out = ["Q", "R'", "αβγδεζηθ", "T.x", "信号输入输出汉字"]
     sigs = []
 
     def bits():
